@@ -410,10 +410,12 @@ impl MetricsInner {
 
     #[inline]
     fn get(&self, typ: &MetricType) -> u64 {
-        let mut total = 0;
+        let mut total = 0u64;
         if let Some(v) = self.all.get(typ) {
+            // negative deltas are recorded as two's complements (see `SampledLFU::update`): the
+            // sum over the stripes has to wrap like the stripes themselves do
             v.iter()
-                .for_each(|atom| total += atom.load(Ordering::SeqCst));
+                .for_each(|atom| total = total.wrapping_add(atom.load(Ordering::SeqCst)));
         }
         total
     }
